@@ -132,8 +132,12 @@ Fixpoint fold_res (f : state -> tedge -> result) (s : state) (es : list tedge) :
   | e :: t => match f s e with Ok s' => fold_res f s' t | Raise => Raise end
   end.
 
+(* add_edges_from looks the edge type up even for an empty batch; remove_edges_from only per edge *)
 Definition add_edges (s : state) (i : nat) (es : list tedge) : result :=
-  fold_res (fun s e => add_edge s i (fst e) (snd e)) s es.
+  match nth_error (layers s) i with
+  | None => Raise
+  | Some _ => fold_res (fun s e => add_edge s i (fst e) (snd e)) s es
+  end.
 Definition remove_edges (s : state) (i : nat) (es : list tedge) : result :=
   fold_res (fun s e => remove_edge s i (fst e) (snd e)) s es.
 
